@@ -28,7 +28,7 @@ Laws(r) ==
     [] r.kind = "unch" -> {"CallerObjectUnchanged"}
     [] r.kind = "shape" -> {"ArrayEqualsScalars"}
     [] r.kind = "form" -> {"FormIndependent"}
-    [] r.kind = "self" -> {"NeverNaN", "SelfAndAntipodeExact"}
+    [] r.kind = "self" -> IF r.rel \in NearRels THEN {"NeverNaN", "Range", "NearSelfAndAntipode"} ELSE {"NeverNaN", "SelfAndAntipodeExact"}
     [] OTHER -> {}
 
 Failing(r) ==
@@ -45,7 +45,7 @@ Failing(r) ==
     [] r.kind = "unch" -> IF CallerObjectUnchanged(r) THEN {} ELSE {"CallerObjectUnchanged " \o r.fn}
     [] r.kind = "shape" -> IF ArrayEqualsScalars(r) THEN {} ELSE {"ArrayEqualsScalars " \o r.fn \o " " \o ShapeClass(r.shape)}
     [] r.kind = "form" -> IF FormIndependent(r) THEN {} ELSE {"FormIndependent " \o r.fn \o " " \o r.form}
-    [] r.kind = "self" -> IF SelfHolds(r) THEN {} ELSE {(IF r.nnan > 0 THEN "NeverNaN " ELSE "SelfAndAntipodeExact ") \o r.fn \o " " \o r.conv \o " " \o r.rel}
+    [] r.kind = "self" -> IF SelfHolds(r) THEN {} ELSE {(IF r.nnan > 0 THEN "NeverNaN " ELSE IF r.wrong > 0 /\ r.fn = "gcirc" THEN "Range " ELSE "SelfAndAntipodeExact ") \o r.fn \o " " \o r.conv \o " " \o r.rel}
     [] OTHER -> {"unknown record kind"}
 
 (* the named deviation of SkyGeom.tla (if any) that admits a rejected record exactly *)
@@ -88,11 +88,16 @@ Shortfalls ==
   \cup (IF Count(LAMBDA r : r.kind = "rt" /\ r.array /\ r.use >= 2) < MinPer THEN {"RoundTrip of an array object used more than twice"} ELSE {})
   \cup (IF Count(LAMBDA r : r.kind = "rt" /\ ~r.array /\ r.use >= 1) < MinPer THEN {"RoundTrip of a reused scalar object"} ELSE {})
   (* dense sweeps of centres: the point itself and its antipode, both conventions / all three unit conventions *)
-  \cup {"NeverNaN cap_distance " \o x[1] \o " " \o x[2] : x \in {y \in {"radec", "vector"} \X SelfRels :
+  \cup {"NeverNaN cap_distance " \o x[1] \o " " \o x[2] : x \in {y \in {"radec", "vector"} \X ExactRels :
            /\ (y[2] = "antipode-negated" => y[1] = "vector")
            /\ Count(LAMBDA r : r.kind = "self" /\ r.fn = "cap_distance" /\ r.conv = y[1] /\ r.rel = y[2] /\ r.n >= 64) < 40 * MinPer}}
   \cup {"NeverNaN gcirc " \o x[1] \o " " \o x[2] : x \in {y \in {"u0", "u1", "u2"} \X {"coincident", "antipode"} :
            Count(LAMBDA r : r.kind = "self" /\ r.fn = "gcirc" /\ r.conv = y[1] /\ r.rel = y[2] /\ r.n >= 1440) < 5 * MinPer}}
+  (* nearly coincident / nearly antipodal partners at every offset scale *)
+  \cup {"NeverNaN gcirc " \o x[1] \o " " \o x[2] \o " scale " \o ToString(x[3]) : x \in {y \in {"u0", "u1", "u2"} \X NearRels \X NearScales :
+           Count(LAMBDA r : r.kind = "self" /\ r.fn = "gcirc" /\ r.conv = y[1] /\ r.rel = y[2] /\ r.scale = y[3] /\ r.n >= 5000 * MinPer) < 3}}
+  \cup {"NeverNaN cap_distance " \o x[1] \o " " \o x[2] \o " scale " \o ToString(x[3]) : x \in {y \in {"radec", "vector"} \X NearRels \X NearScales :
+           Count(LAMBDA r : r.kind = "self" /\ r.fn = "cap_distance" /\ r.conv = y[1] /\ r.rel = y[2] /\ r.scale = y[3] /\ r.n >= 3000) < MinPer}}
   (* every function is called with 8-bit, 16-bit and wide integer arguments (arrays and scalars where it takes them) *)
   \cup {"FormIndependent " \o x[1] \o " " \o x[2] : x \in {y \in FormFns \X {"8bit", "16bit", "wide"} :
            Count(LAMBDA r : r.kind = "form" /\ r.fn = y[1] /\ FormClass(r.form) = y[2]) < MinPer}}
